@@ -81,6 +81,74 @@ func checkC09(c *Check) {
 	// the logout test uses the handler's config and the current request
 	c.Obl(isHandlerConfig(logoutCall.Common().Args[1]), "C09.R1", "logout-test-config", P.Pos(logoutCall.Pos()), "logout test against the handler's own configuration", "the logout test is not evaluated against the handler's configuration")
 
+	// the logout test itself: true iff a logout is configured and the request's path component equals its path
+	{
+		lm := R.LogoutMatch
+		lff := FactsOf(lm)
+		okShape, nTrue := true, 0
+		why := ""
+		for _, r := range returnsOf(lm) {
+			if b, isC := constBool(r.Results[0]); isC && !b {
+				continue
+			}
+			nTrue++
+			fs := lff.At(r)
+			eq := false
+			for cond, pol := range fs {
+				bo, ok := cond.(*ssa.BinOp)
+				if !ok || !isString(bo.X.Type()) || (bo.Op != token.EQL && bo.Op != token.NEQ) || ((bo.Op == token.EQL) != pol) {
+					continue
+				}
+				isReqPath := func(v ssa.Value) bool {
+					sc, si, isC := asCall(resolveCell(stripConv(v)))
+					return isC && si == 0 && isCallTo(sc, fSplit)
+				}
+				isCfgPath := func(v ssa.Value) bool {
+					gc, _, isC := asCall(resolveCell(stripConv(v)))
+					return isC && isCallTo(gc, pkgCfgOIDC+".LogoutConfig.GetPath")
+				}
+				if (isReqPath(bo.X) && isCfgPath(bo.Y)) || (isReqPath(bo.Y) && isCfgPath(bo.X)) {
+					eq = true
+				}
+			}
+			if !eq {
+				okShape, why = false, "a `true` outcome is not guarded by request path (splitter result #0) == configured logout path"
+			}
+		}
+		// a request whose path equals the logout path is recognised: the false returns are only `no logout configured` or `paths differ`
+		for _, r := range returnsOf(lm) {
+			if b, isC := constBool(r.Results[0]); !isC || b {
+				continue
+			}
+			for _, last := range branchConds(r) {
+				inner, _ := unwrapBool(last)
+				okReason := false
+				if bo, isB := inner.(*ssa.BinOp); isB {
+					if isNilConst(bo.Y) {
+						if gc, _, isC := asCall(bo.X); isC && isCallTo(gc, idOIDCConfig+".GetLogout") {
+							okReason = true
+						}
+					}
+					isReqPath := func(v ssa.Value) bool {
+						sc, si, isC := asCall(resolveCell(stripConv(v)))
+						return isC && si == 0 && isCallTo(sc, fSplit)
+					}
+					isCfgPath := func(v ssa.Value) bool {
+						gc, _, isC := asCall(resolveCell(stripConv(v)))
+						return isC && isCallTo(gc, pkgCfgOIDC+".LogoutConfig.GetPath")
+					}
+					if isString(bo.X.Type()) && ((isReqPath(bo.X) && isCfgPath(bo.Y)) || (isReqPath(bo.Y) && isCfgPath(bo.X))) {
+						okReason = true
+					}
+				}
+				if !okReason {
+					okShape, why = false, "the logout test can fail for a reason other than `no logout configured` / `path differs` ("+descDepth(last, 3)+")"
+				}
+			}
+		}
+		c.Obl(okShape && nTrue >= 1, "C09.R1", "logout-test-shape", P.Pos(lm.Pos()), "logout request ⇔ logout configured ∧ path component == configured logout path", "logout test: "+why)
+	}
+
 	// ---- R2
 	var sid *ssa.Call
 	for _, ci := range callsToFn(pr, R.CookieReader) {
